@@ -8,6 +8,7 @@ import SquidModel.Properties.C03
 #print axioms SquidModel.C03.content_length_body_sound
 #print axioms SquidModel.C03.head_ends_at_first_empty_line
 #print axioms SquidModel.C03.chunked_body_exact
+#print axioms SquidModel.C03.strict_rfc9112_message_delimited_exactly
 #print axioms SquidModel.C03.te_and_cl_keeps_reading_counterexample
 #print axioms SquidModel.C03.te_and_cl_closes_when_repaired
 #print axioms SquidModel.C03.repaired_te_and_cl_never_persistent
